@@ -34,13 +34,16 @@ def plan(tier, seed):
         shards += [dict(s, phantom=True, bound=s["bound"] + " + imports of non-modules") for s in plan_graph_shards("A", n_max=4, chunk=16)]
     else:
         shards = plan_graph_shards("A", n_max=5, chunk=32)
+        # other namings: the complete four-module space and every five-module architecture with <= 3 imports
         for naming in ("adversarial", "selfprefix", "unicode"):
-            shards += [dict(s, naming=naming, bound=s["bound"] + " naming=" + naming) for s in plan_graph_shards("A", n_max=5, chunk=64)]
+            shards += [dict(s, naming=naming, bound=s["bound"] + " naming=" + naming)
+                       for s in plan_graph_shards("A", n_max=4, chunk=16) + plan_graph_shards("B", n_max=5, n_min=5, k=3, parts=4)]
         shards += plan_graph_shards("B", n_max=6, n_min=6, k=3, parts=16)
         shards += plan_graph_shards("B", k=3, parts=16, with_ext=True, tree_list=list(trees(5)))
         shards += plan_graph_shards("B", k=2, parts=16, with_ext=True, tree_list=list(BIG_TREES))
         shards += plan_graph_shards("N", n_max=6, n_min=3, k=3, parts=8)
-        shards += [dict(s, phantom=True, bound=s["bound"] + " + imports of non-modules") for s in plan_graph_shards("A", n_max=5, chunk=64)]
+        shards += [dict(s, phantom=True, bound=s["bound"] + " + imports of non-modules")
+                   for s in plan_graph_shards("A", n_max=4, chunk=16) + plan_graph_shards("B", n_max=5, n_min=5, k=3, parts=4)]
     req = []
     for verb in ("should", "should_only", "should_not"):
         for exc in (False, True):
